@@ -138,7 +138,7 @@ Lemma request_melt_quote_not_ln : forall cfg u d req h msat mpp id,
   allret (errs not_ln) (request_melt_quote cfg u d req h msat mpp id).
 Proof.
   intros cfg u d req h msat mpp id. unfold request_melt_quote, fail.
-  destruct (negb u); [ret_ok |]. destruct (negb d); [ret_ok |]. destruct (msat =? 0); [ret_ok |].
+  destruct (negb u); [ret_ok |]. destruct (negb d); [ret_ok |]. destruct ((msat <=? 0) || (two63 <=? msat)); [ret_ok |].
   apply ADo; intro mq.
   set (internal := match same_invoice mq req with Some _ => true | None => false end).
   assert (Hplan : forall (X : Type) (k : result (bool * Z * Z) -> prog (result X)),
